@@ -346,6 +346,20 @@ def check(pid, tier, seed):
                     except FileNotFoundError:
                         pass
         rc, mout = make(targets, timeout=3000)
+
+        def _clean_cone():
+            g1 = dep_graph()
+            for rel in cone(g1, [t[:-1] for t in targets]):
+                for ext in ("o", "ok", "os"):
+                    try:
+                        os.remove(os.path.join(COQ, rel + ext))
+                    except FileNotFoundError:
+                        pass
+
+        if "inconsistent assumptions" in mout:
+            # stale .vo files (compiled against an older Facts.vo but with newer timestamps): rebuild the cone once
+            _clean_cone()
+            rc, mout = make(targets, timeout=3000)
         g = dep_graph()
         cone_files = cone(g, ["theories/" + cfg["prop_file"]])
         corr_cone = cone(g, ["theories/" + c for c in cfg.get("corr_files", [])])
@@ -366,6 +380,10 @@ def check(pid, tier, seed):
         axioms_seen = set()
         if prop_built:
             rc, aout, assump, missing = print_assumptions(pid, cfg)
+            if "inconsistent assumptions" in aout:
+                _clean_cone()
+                rc, mout = make(targets, timeout=3000)
+                rc, aout, assump, missing = print_assumptions(pid, cfg)
             if rc != 0 or missing:
                 build_broken.append(("proof", "Print Assumptions", f"missing={missing}\n{aout[-1500:]}"))
             allowed = set(cfg.get("allowed_axioms", []))
